@@ -8,6 +8,7 @@ CONSTANTS
   Hi = 3000
   Step = 7
   MaxRbf = 7
+  MaxPeer = 8
   MaxRatio = 8
 INVARIANTS NegDump
 CHECK_DEADLOCK FALSE
